@@ -181,44 +181,140 @@ def _name_of_exc(node):
 
 
 class Interp:
-    def __init__(s, cls, filename='?'):
+    def __init__(s, cls, filename='?', model=None, mod='core'):
         s.cls = cls
         s.filename = filename
-        s.methods = {n.name: hoist_walrus(n) for n in cls.body if isinstance(n, (ast.FunctionDef,))}
+        s.model = model                 # whole-package model (sa/symex.Model): base classes, module constants, helper functions
+        s.mod = getattr(cls, '_home', mod)
+        s.cur_mod = s.mod               # module of the code being interpreted (changes while a moved helper is inlined)
+        chain = [(s.mod, cls)]
+        if model is not None:
+            try:
+                chain = list(model.mro(s.mod, cls))
+            except ValueError:
+                chain = [(s.mod, cls)]
+        s.mro_classes = [c for _m, c in chain]
+        s.methods, s.method_home = {}, {}
+        for m_, c in reversed(chain):            # a private base class / mixin contributes the methods the class does not override
+            for n in c.body:
+                if isinstance(n, ast.FunctionDef):
+                    s.methods[n.name] = hoist_walrus(n)
+                    s.method_home[n.name] = m_
         s.consts = {}
-        for n in cls.body:
-            if isinstance(n, ast.Assign) and isinstance(n.value, ast.Constant) and isinstance(n.value.value, int):
-                for t in n.targets:
-                    if isinstance(t, ast.Name):
-                        s.consts[t.id] = n.value.value
-        # class-level constants computed from other class-level constants (BOTH = STRICT | DROP) and tables of them
         s.class_tables = {}
-
-        def fold(node):
-            if isinstance(node, ast.Constant) and isinstance(node.value, int) and not isinstance(node.value, bool):
-                return node.value
-            if isinstance(node, ast.Name) and node.id in s.consts:
-                return s.consts[node.id]
-            if isinstance(node, ast.Attribute) and isinstance(node.value, ast.Name) and node.value.id == cls.name and node.attr in s.consts:
-                return s.consts[node.attr]
-            if isinstance(node, ast.BinOp):
-                a, b = fold(node.left), fold(node.right)
-                ops = {ast.BitOr: lambda: a | b, ast.BitAnd: lambda: a & b, ast.Add: lambda: a + b, ast.Sub: lambda: a - b, ast.Mult: lambda: a * b}
-                if type(node.op) in ops:
-                    return ops[type(node.op)]()
-            raise ValueError
-        for n in cls.body:
-            if isinstance(n, ast.Assign) and len(n.targets) == 1 and isinstance(n.targets[0], ast.Name):
-                try:
-                    if isinstance(n.value, (ast.Tuple, ast.List)):
-                        s.class_tables[n.targets[0].id] = [fold(e) for e in n.value.elts]
-                    elif n.targets[0].id not in s.consts:
-                        s.consts[n.targets[0].id] = fold(n.value)
-                except ValueError:
-                    pass
+        for m_, c in reversed(chain):
+            for n in c.body:
+                if isinstance(n, ast.Assign) and len(n.targets) == 1 and isinstance(n.targets[0], ast.Name):
+                    try:
+                        if isinstance(n.value, (ast.Tuple, ast.List)):
+                            s.class_tables[n.targets[0].id] = [s.fold(e, m_, c) for e in n.value.elts]
+                        else:
+                            s.consts[n.targets[0].id] = s.fold(n.value, m_, c)
+                    except ValueError:
+                        pass
         s.fresh = itertools.count()
         s.nleaves = 0
         s.frame_list_field = None     # set by the driver once roles are known
+
+    # ------------------------------------------------------------------ constants and names of the package
+    def enum_members(s, cnode):
+        """member name -> int value of an Enum / IntEnum / IntFlag class of the package with literal int members (else None)"""
+        if not any((isinstance(b, ast.Name) and b.id in ('Enum', 'IntEnum', 'IntFlag', 'Flag')) or (isinstance(b, ast.Attribute) and b.attr in ('Enum', 'IntEnum', 'IntFlag', 'Flag')) for b in cnode.bases):
+            return None
+        out = {}
+        for n in cnode.body:
+            if isinstance(n, ast.Assign) and len(n.targets) == 1 and isinstance(n.targets[0], ast.Name):
+                if isinstance(n.value, ast.Constant) and isinstance(n.value.value, int) and not isinstance(n.value.value, bool):
+                    out[n.targets[0].id] = n.value.value
+                else:
+                    return None
+        vals = list(out.values())
+        return out if out and len(set(vals)) == len(vals) else None
+
+    def glob(s, mod, name, depth=0):
+        """what a free name means in module `mod` of the package: ('int', v) | ('table', [v..]) | ('enum', {member: v}) |
+        ('func', mod, node) | ('module', mod) | None (not a package-level thing the interpreter models)"""
+        if s.model is None or mod not in s.model.mods or depth > 4:
+            return None
+        d = s.model.mods[mod]
+        if name in d['imports'] and d['imports'][name][0] == 'mod' and d['imports'][name][1] in s.model.mods:
+            return ('module', d['imports'][name][1])
+        g = s.model.resolve_global(mod, name)
+        lk = s.model.lookup(g)
+        if not lk:
+            return None
+        if lk[0] == 'func':
+            return ('func', g[1], lk[1])
+        if lk[0] == 'class':
+            em = s.enum_members(lk[1])
+            return ('enum', em) if em else ('pkgclass', g[1], lk[1])
+        if lk[0] == 'const' and not s.model.reassigned(g[1], g[2]):
+            v = lk[1]
+            try:
+                if isinstance(v, (ast.Tuple, ast.List)):
+                    return ('table', [s.fold(e, g[1], None, depth + 1) for e in v.elts])
+                return ('int', s.fold(v, g[1], None, depth + 1))
+            except ValueError:
+                if isinstance(v, ast.Name):
+                    return s.glob(g[1], v.id, depth + 1)
+                if isinstance(v, ast.Attribute) and isinstance(v.value, ast.Name):
+                    b = s.glob(g[1], v.value.id, depth + 1)
+                    if b and b[0] == 'module':
+                        return s.glob(b[1], v.attr, depth + 1)
+        return None
+
+    def fold(s, node, mod, cls=None, depth=0):
+        """int value of a constant expression over literals, class constants and module constants of the package"""
+        if depth > 6:
+            raise ValueError
+        if isinstance(node, ast.Constant) and isinstance(node.value, int) and not isinstance(node.value, bool):
+            return node.value
+        if isinstance(node, ast.Name):
+            if node.id in s.consts:
+                return s.consts[node.id]
+            g = s.glob(mod, node.id, depth + 1)
+            if g and g[0] == 'int':
+                return g[1]
+            raise ValueError
+        if isinstance(node, ast.Attribute):
+            if node.attr == 'value' and isinstance(node.value, ast.Attribute):
+                return s.fold(node.value, mod, cls, depth + 1)            # <Enum>.<member>.value
+            if isinstance(node.value, ast.Name):
+                if node.value.id in [c.name for c in s.mro_classes] and node.attr in s.consts:
+                    return s.consts[node.attr]
+                g = s.glob(mod, node.value.id, depth + 1)
+                if g and g[0] == 'module':
+                    g2 = s.glob(g[1], node.attr, depth + 1)
+                    if g2 and g2[0] == 'int':
+                        return g2[1]
+                if g and g[0] == 'enum' and node.attr in g[1]:
+                    return g[1][node.attr]
+            raise ValueError
+        if isinstance(node, ast.UnaryOp) and isinstance(node.op, ast.USub):
+            return -s.fold(node.operand, mod, cls, depth + 1)
+        if isinstance(node, ast.BinOp):
+            a, b = s.fold(node.left, mod, cls, depth + 1), s.fold(node.right, mod, cls, depth + 1)
+            ops = {ast.BitOr: lambda: a | b, ast.BitAnd: lambda: a & b, ast.Add: lambda: a + b, ast.Sub: lambda: a - b, ast.Mult: lambda: a * b}
+            if type(node.op) in ops:
+                return ops[type(node.op)]()
+        raise ValueError
+
+    def glob_value(s, g):
+        if g is None:
+            return None
+        if g[0] == 'int':
+            return LIN(C(g[1]))
+        if g[0] == 'table':
+            return ('tuple', [LIN(C(v)) for v in g[1]])
+        if g[0] == 'enum':
+            return ('enumcls', g[1])
+        if g[0] == 'func':
+            return ('pkgfunc', g[1], g[2])
+        if g[0] == 'module':
+            return ('module', g[1])
+        if g[0] == 'pkgclass':
+            return ('pkgclass', g[1], g[2])
+        return None
 
     # ------------------------------------------------------------------ helpers
     def loc(s, node):
@@ -255,6 +351,9 @@ class Interp:
                 return [(p, p.locs[n.id])]
             if n.id == s.cls.name:
                 return [(p, ('class',))]
+            gv = s.glob_value(s.glob(s.cur_mod, n.id))
+            if gv is not None:
+                return [(p, gv)]
             return [(p, ('opaque', n.id))]
         if isinstance(n, ast.Attribute):
             out = []
@@ -293,6 +392,13 @@ class Interp:
                 cur = nxt
             out = []
             for q, vals in cur:
+                if isinstance(n, ast.List) and len(vals) == 1 and vals[0][0] == 'frame' and vals[0][1] == 'cur':
+                    # [frame]: a fresh list holding the frame just read = an empty list to which the frame is appended
+                    P0 = add(q.gh['Fg'], C(1)) if 'Fg' in q.gh else None
+                    nl = q.newlist(C(0), P0)
+                    for r, _ in s.append_event(q, nl[1], vals[0], n):
+                        out.append((r, nl))
+                    continue
                 tv = ('tuple', vals)
                 if isinstance(n, ast.Tuple) and len(vals) == 3 and vals[0][0] == 'list' and vals[1][0] == 'lin' and vals[2][0] == 'lin':
                     tid = next(s.fresh)
@@ -397,6 +503,15 @@ class Interp:
             if f in s.methods:
                 return ('method', f)
             return ('opaque', 'self.' + f)
+        if base[0] == 'module':
+            gv = s.glob_value(s.glob(base[1], n.attr))
+            return gv if gv is not None else ('opaque', ast.unparse(n))
+        if base[0] == 'enumcls':
+            if n.attr in base[1]:
+                return LIN(C(base[1][n.attr]))            # members are singletons with distinct values: identity is equality of values
+            return ('opaque', ast.unparse(n))
+        if base[0] == 'lin' and n.attr == 'value' and isinstance(n.value, ast.Attribute) and is_const(base[1]):
+            return base                                    # <Enum>.<member>.value
         if base[0] == 'class' and n.attr in s.consts:
             return LIN(C(s.consts[n.attr]))
         if base[0] == 'class' and n.attr in s.class_tables:
@@ -534,6 +649,14 @@ class Interp:
         if isinstance(f, ast.Name):
             if f.id in p.locs and p.locs[f.id][0] in ('method', 'validator'):
                 return s.call_value(n, p, p.locs[f.id])       # a bound method / the validator held in a local
+            if f.id in p.locs and p.locs[f.id][0] == 'pkgfunc':
+                return s.inline_function(n, p, p.locs[f.id][1], p.locs[f.id][2])
+            if f.id not in p.locs:
+                g = s.glob(s.cur_mod, f.id)
+                if g and g[0] == 'func':
+                    return s.inline_function(n, p, g[1], g[2])      # a helper function of the package (this module or the one it was moved to)
+                if g and g[0] in ('pkgclass', 'enum'):
+                    raise Unsupported('construction of %s at %s' % (f.id, s.loc(n)))
             return s.call_builtin(n, p, f.id)
         if isinstance(f, ast.Attribute):
             out = []
@@ -646,6 +769,16 @@ class Interp:
             raise Unsupported('call of unknown method self.%s at %s' % (name, s.loc(n)))
         if recv[0] == 'validator':
             return s.call_value(n, p, recv)
+        if recv[0] == 'module':
+            g = s.glob(recv[1], name)
+            if g and g[0] == 'func':
+                return s.inline_function(n, p, g[1], g[2])
+            raise Unsupported('call of %s.%s at %s' % (recv[1], name, s.loc(n)))
+        if recv[0] == 'pkgclass':
+            r = s.model.find_method(recv[1], recv[2], name) if s.model else None
+            if r and any(isinstance(d, ast.Name) and d.id == 'staticmethod' for d in r[2].decorator_list):
+                return s.inline_function(n, p, r[0], r[2])           # a namespace class of static helpers
+            raise Unsupported('call of %s.%s at %s' % (recv[2].name, name, s.loc(n)))
         if recv[0] == 'class' and name in s.methods:
             if any(isinstance(d, ast.Name) and d.id in ('staticmethod', 'classmethod') for d in s.methods[name].decorator_list):
                 return s.inline(n, p, name)
@@ -749,9 +882,15 @@ class Interp:
             return p.flds[f][1]
         return None
 
-    def inline(s, n, p, name):
-        """inline a method of the analysed class; -> list of (path, return value)"""
-        m = s.methods[name]
+    def inline_function(s, n, p, mod, fn):
+        """inline a module-level helper function of the package (static: no self)"""
+        return s.inline(n, p, fn.name, m=hoist_walrus(fn), home=mod, free=True)
+
+    def inline(s, n, p, name, m=None, home=None, free=False):
+        """inline a method of the analysed class (or, free=True, a helper function); -> list of (path, return value)"""
+        if m is None:
+            m = s.methods[name]
+            home = s.method_home.get(name, s.mod)
         if p.depth >= MAX_DEPTH:
             raise Unsupported('inlining depth exceeded at %s (recursion?)' % s.loc(n))
         if any(isinstance(x, (ast.Yield, ast.YieldFrom)) for x in ast.walk(m)):
@@ -763,7 +902,7 @@ class Interp:
         decos = {d.id for d in m.decorator_list if isinstance(d, ast.Name)} | {d.attr for d in m.decorator_list if isinstance(d, ast.Attribute)}
         if decos - {'staticmethod', 'classmethod'}:
             raise Unsupported('decorated method %s (%s) called at %s' % (name, sorted(decos), s.loc(n)))
-        static = 'staticmethod' in decos
+        static = 'staticmethod' in decos or free
         params = [x.arg for x in a.args] if static else [x.arg for x in a.args][1:]
         first = None if static else (a.args[0].arg if a.args else None)
         for q, vals in s.evargs(n.args, p):
@@ -807,7 +946,12 @@ class Interp:
                     saved = r2.locs
                     r2.locs = nl
                     r2.depth += 1
-                    for r3, sig in s.block(m.body, r2):
+                    saved_mod, s.cur_mod = s.cur_mod, (home or s.cur_mod)
+                    try:
+                        results = s.block(m.body, r2)
+                    finally:
+                        s.cur_mod = saved_mod
+                    for r3, sig in results:
                         rv = NONE
                         if sig is not None:
                             if sig[0] == 'return':
